@@ -66,11 +66,55 @@ func vacuityGuard(r *vk.Run, hist map[string]int64, need ...string) {
 func DumpPrefills() {
 	pb := Params()
 	fmt.Printf("B=%d MinKeys=%d depth=%d\n", pb.B, pb.MinKeys, pb.Depth)
+	if scr := os.Getenv("VERIF_SCRIPT"); scr != "" && pb.B == 4 { // shape after each word of an ad-hoc script
+		u := UniverseA23()
+		s := NewSys(u, Cfg{Cache: 10000})
+		m := NewModel(u)
+		for _, w := range strings.Fields(scr) {
+			if i, d := Run(s, m, u.Ops(w)); d != "" {
+				fmt.Printf("op %d: %s\n", i, d)
+				return
+			}
+			d, _ := bptree.VerifDumpWorking(s.T)
+			fmt.Printf("%-4s %s\n", w, ShapeString(d, false))
+		}
+		return
+	}
+	if v := os.Getenv("VERIF_DESC"); v != "" && pb.B == 32 { // fan-outs per level while inserting keys in descending order
+		var n int
+		fmt.Sscan(v, &n)
+		var ks []string
+		for i := 0; i <= n; i++ {
+			ks = append(ks, keyB(i))
+		}
+		u := NewUniverse(ks, -1)
+		s := NewSys(u, Cfg{Cache: 10000})
+		m := NewModel(u)
+		last := ""
+		for i := n; i >= 0; i-- {
+			Run(s, m, []Op{{OpSet, int16(i)}})
+			d, _ := bptree.VerifDumpWorking(s.T)
+			pr := levelProfile(d)
+			if len(pr) >= 3 {
+				cur := fmt.Sprint(pr[1:], " first leaves ", pr[0][:4])
+				if fmt.Sprint(pr[1:]) != last {
+					fmt.Printf("n=%d %s\n", n-i+1, cur)
+					last = fmt.Sprint(pr[1:])
+				}
+			}
+		}
+		return
+	}
 	var scs []*Scenario
 	if pb.B == 4 {
 		scs = ScenariosA(false)
 	} else {
 		scs, _ = ScenariosB(false)
+		inner, err := ScenariosBInner(false)
+		if err != nil {
+			fmt.Println(err)
+		}
+		scs = append(scs, inner...)
 	}
 	for _, sc := range scs {
 		s := NewSys(sc.U, sc.Cfg)
@@ -198,11 +242,17 @@ func ChildC23(sink Sink) map[string]any {
 		sink.Violation("HARNESS: child not built with B=32", nil)
 		return nil
 	}
-	scs, err := ScenariosB(sink.Thorough())
+	scs, err := scenariosB(sink.Thorough(), !sink.Thorough())
 	if err != nil {
 		sink.Violation("B32 prefill failed: "+err.Error(), map[string]any{"error": err.Error()})
 		return map[string]any{}
 	}
+	inner, err := ScenariosBInner(sink.Thorough())
+	if err != nil {
+		sink.Violation("B32 prefill failed: "+err.Error(), map[string]any{"error": err.Error()})
+		return map[string]any{}
+	}
+	scs = append(scs, inner...)
 	rows, states, trans, ranges, underfull, ex := runScenarios(sink, c23Opts(scs), nil)
 	if len(rows) > 0 {
 		sink.Sample(map[string]any{"scale": "B (B=32)", "example_scenario": rows[len(rows)-1]})
